@@ -1,5 +1,6 @@
 import AikenVerif.Model.ErrorClass
 import AikenVerif.Lemmas.Mini
+import AikenVerif.Lemmas.MiniTypes
 /-!
 # C06 — well-typed programs cannot go wrong
 
@@ -13,6 +14,13 @@ Level: translation validation.  What is machine-checked here:
 * on the source semantics: the failures a program can ASK for are exactly the `abort` outcomes;
   `stuck` (ill-typed) never comes out of `fail` / `todo` / a failed `expect` / a partial operator
   applied to values of the right type (`requested_failures_abort`).
+
+* `well_typed_never_stuck_partial` / `well_typed_call_never_stuck_partial`: TYPE SOUNDNESS of the
+  source semantics for the first-order fragment (literals, `let`, `if`, `&&`/`||`, strict operators,
+  tuples, lists, recursive top-level functions, `fail`/`todo`, `expect` and `when` over list / tuple /
+  literal patterns, `trace`, `?`): a well-typed expression of a well-typed program is never `stuck` —
+  for every fuel, tracing mode and well-typed arguments — and its value has its type.  `_partial`:
+  closures / higher-order application, user ADTs and `Data` casts are outside the typed fragment.
 
 Not proved: type soundness of the real checker and code generator for all programs (that part is the
 per-program validation of `c06-classify`).
@@ -61,5 +69,81 @@ theorem requested_failures_abort (P : Mini.Program) (m : Mode) (n : Nat) (env : 
     have : ¬ (0 ≤ i) := by omega
     simp [this]
   · simp only [evalSrc, result, eval, he, ret, bind_val, hp, abortM]
+
+open Mini in
+/-- **type soundness, first-order fragment**: never `stuck`; a value has the expression's type -/
+theorem well_typed_never_stuck_partial (S : Sig) (P : Mini.Program) (hP : ProgTy S P) (m : Mode) (fuel : Nat)
+    (Γ : Ctx) (env : Env) (e : Expr) (t : MTy) (h : HasTy S Γ e t) (henv : envOk Γ env) :
+    result (evalSrc P m fuel env e) ≠ .stuck ∧
+    ∀ v, result (evalSrc P m fuel env e) = .val v → valTy v t = true := by
+  have hs := (sound_step S P m hP fuel).1 Γ env e t h henv
+  unfold result evalSrc
+  generalize (eval P m fuel env e).1 = o at hs
+  cases o <;> simp_all [Ok, Good]
+
+open Mini in
+/-- the same at a validator / test entry point: calling a function of the signature table on
+arguments of the declared types -/
+theorem well_typed_call_never_stuck_partial (S : Sig) (P : Mini.Program) (hP : ProgTy S P) (m : Mode)
+    (fuel : Nat) (f : Nat) (argtys : List MTy) (r : MTy) (args : List Val)
+    (hsig : S[f]? = some (argtys, r)) (hargs : zipTy args argtys = true) :
+    result (runCall P m fuel f args) ≠ .stuck ∧
+    ∀ v, result (runCall P m fuel f args) = .val v → valTy v r = true := by
+  obtain ⟨xs, body, hf, hlen, hbody⟩ := hP f argtys r hsig
+  obtain ⟨env, hbp, hok⟩ := bindParams_ok xs args argtys hlen hargs
+  simp only [runCall, hf, hbp]
+  exact well_typed_never_stuck_partial S P hP m fuel _ env body r hbody hok
+
+namespace Example
+open Mini
+/-- `fn sum(xs: List<Int>) -> Int { when xs is { [] -> 0  [h, ..t] -> h + sum(t) } }` and
+`fn fact(n: Int) -> Int { if n <= 0 { 1 } else { n * fact(n - 1) } }` -/
+def sumBody : Expr :=
+  .when (.var 0) [(.nil, .lit (.int 0)),
+                  (.cons (.var 1) (.var 2), .bin .add (.var 1) (.call 0 [.var 2]))]
+def factBody : Expr :=
+  .ite (.bin .le (.var 0) (.lit (.int 0))) (.lit (.int 1))
+    (.bin .mul (.var 0) (.call 1 [.bin .sub (.var 0) (.lit (.int 1))]))
+def prog : Mini.Program := { adts := [], fns := [([0], sumBody), ([0], factBody)], lams := [] }
+def sig : Sig := [([.list .int], .int), ([.int], .int)]
+
+theorem sum_typed : HasTy sig [(0, .list .int)] sumBody .int := by
+  refine .when _ _ _ (.list .int) _ (.var _ _ _ rfl) ?_ ?_ ?_
+  · intro c hc
+    simp only [List.mem_cons, List.not_mem_nil, or_false] at hc
+    rcases hc with rfl | rfl <;> rfl
+  · intro c hc Γp hp
+    simp only [List.mem_cons, List.not_mem_nil, or_false] at hc
+    rcases hc with rfl | rfl
+    · simp only [patCtx, Option.some.injEq] at hp; subst hp; exact .lit_int _ _
+    · simp only [patCtx, Option.some.injEq] at hp; subst hp
+      exact .bin _ _ _ _ .int .int _ (.var _ _ _ rfl)
+        (.call _ 0 _ [.list .int] _ rfl (.cons _ _ _ _ _ (.var _ _ _ rfl) (.nil _))) .add
+  · intro v hv
+    obtain ⟨vs, rfl, _⟩ := valTy_list hv
+    cases vs <;> simp [firstMatch, matchPat]
+
+theorem fact_typed : HasTy sig [(0, .int)] factBody .int :=
+  .ite _ _ _ _ _ (.bin _ _ _ _ .int .int _ (.var _ _ _ rfl) (.lit_int _ _) .le) (.lit_int _ _)
+    (.bin _ _ _ _ .int .int _ (.var _ _ _ rfl)
+      (.call _ 1 _ [.int] _ rfl
+        (.cons _ _ _ _ _ (.bin _ _ _ _ .int .int _ (.var _ _ _ rfl) (.lit_int _ _) .sub) (.nil _))) .mul)
+
+/-- the premises of the soundness theorem are satisfiable by a recursive program with a `when` -/
+theorem prog_typed : ProgTy sig prog := by
+  intro f argtys r h
+  match f with
+  | 0 => simp only [sig, List.getElem?_cons_zero, Option.some.injEq, Prod.mk.injEq] at h
+         obtain ⟨rfl, rfl⟩ := h
+         exact ⟨[0], sumBody, rfl, rfl, sum_typed⟩
+  | 1 => simp only [sig, List.getElem?_cons_succ, List.getElem?_cons_zero, Option.some.injEq, Prod.mk.injEq] at h
+         obtain ⟨rfl, rfl⟩ := h
+         exact ⟨[0], factBody, rfl, rfl, fact_typed⟩
+  | n + 2 => simp [sig] at h
+
+/-- … and the conclusion is not about an empty set of runs: `sum([1, 2, 3]) = 6`, `fact(5) = 120` -/
+example : result (runCall prog .verbose 20 0 [.list [.int 1, .int 2, .int 3]]) = .val (.int 6) := by rfl
+example : result (runCall prog .verbose 20 1 [.int 5]) = .val (.int 120) := by rfl
+end Example
 
 end AikenVerif.C06
